@@ -104,8 +104,8 @@ func HarnessCertReuse() {
 
 // HarnessCertConcurrent: "also when many tunnels to a new host open at once".  Two tunnels ask
 // for the certificate of one host (new to the cache, or cached but expired, or cached and valid);
-// the second tunnel's whole GetCertForHost is placed at every lock boundary of the first one's
-// (the certificate map's Get / Delete / Set).  Both get a certificate naming exactly the host and
+// the two calls are interleaved at every lock boundary (the certificate map's Get / Delete /
+// Set) and atomic operation, with a bounded number of switches between them.  Both get a certificate naming exactly the host and
 // inside its validity period, the map ends with one of them, and a later tunnel reuses that one.
 func HarnessCertConcurrent() {
 	ca := newTestCA()
@@ -128,16 +128,19 @@ func HarnessCertConcurrent() {
 	}
 	var c2 *tls.Certificate
 	var err2 error
-	vInterpose(func() { c2, err2 = ca.GetCertForHost(host) }, 1)
+	// the second tunnel's call runs concurrently: every interleaving of the two calls at their
+	// lock boundaries and atomic operations with at most `switches` switches to the second one
+	vInterposeAtomics(true)
+	vConcurrent(func() { c2, err2 = ca.GetCertForHost(host) }, vParam("switches", 2))
 	c1, err1 := ca.GetCertForHost(host)
-	vInterpose(nil, 0)
+	vJoin()
 	good := func(c *tls.Certificate, err error) bool {
 		return err == nil && c != nil && c.Leaf != nil && len(c.Leaf.DNSNames) == 1 && c.Leaf.DNSNames[0] == "example.org" &&
 			len(c.Leaf.IPAddresses) == 0 && !c.Leaf.NotBefore.After(now) && c.Leaf.NotAfter.After(now)
 	}
 	vAssert(good(c1, err1), "c11.concurrent.first-tunnel-without-valid-host-cert")
-	if vInterposed() == 0 {
-		return
+	if vInterposed() > 0 {
+		vReach("interleaved")
 	}
 	vReach("second-tunnel-ran")
 	vAssert(good(c2, err2), "c11.concurrent.second-tunnel-without-valid-host-cert")
